@@ -7,6 +7,9 @@ Open Scope string_scope.
 Open Scope list_scope.
 Open Scope Z_scope.
 
+(* the proofs must not depend on which defects the tree currently has: keep `simpl`/`cbn` from evaluating the flags *)
+Arguments defect : simpl never.
+
 (* ------------------------------------------------------------------ hypotheses of the theorems *)
 (* every stored object is an instance of the class KmipEngine._object_map gives for its object type *)
 Definition wf_sobj (o : sobj) : Prop := class_of (so_otype o) = Some (so_class o).
@@ -33,17 +36,20 @@ Definition ES := "services/server/engine.py:".
 Definition active (n site : string) : list string := if defect n then [site] else [].
 Definition pol (f : string) : list string :=
   match assoc_s f policy_unknown with Some (Some s) => [s] | _ => [] end.
-Definition register_convert_sites : list string :=
-  ["pie/factory.py:_build_pie_key:TypeError"; "pie/objects.py:validate:ValueError";
-   "pie/factory.py:_build_cryptographic_parameters:AttributeError(block_cipher_mode)";
-   "pie/factory.py:_build_pie_certificate:TypeError"].
+(* the non-KMIP outcomes recorded in the generated conversion tables *)
+Definition opt_sites (l : list (option string)) : list string :=
+  flat_map (fun r => match r with Some s => if String.eqb s KMIP_ERROR then [] else [s] | None => [] end) l.
+Definition convert_sites : list string :=
+  opt_sites (map snd convert_key_table) ++ opt_sites (map snd convert_missing_table)
+  ++ opt_sites (map snd convert_cert_table) ++ opt_sites (map snd convert_other_table).
 Definition SET_ALG := (ES ++ "_set_attribute_on_managed_object:AttributeError(cryptographic_algorithm)")%string.
 Definition SET_LEN := (ES ++ "_set_attribute_on_managed_object:AttributeError(cryptographic_length)")%string.
 
 Definition op_sites (op : string) : list string :=
   if String.eqb op "REGISTER" then
-    (if defect "register-convert" then register_convert_sites else [])
+    convert_sites
     ++ active "set-attribute-missing-field" SET_ALG ++ active "set-attribute-missing-field" SET_LEN
+    ++ active "register-bigint-overflow" OVERFLOW_SITE
   else if String.eqb op "DERIVE_KEY" then
     active "derive-no-parameters" (ES ++ "_process_derive_key:AttributeError(hashing_algorithm)")%string
   else if String.eqb op "LOCATE" then
@@ -325,34 +331,35 @@ Proof.
 Qed.
 Lemma assoc_z_in : forall A k (l : list (Z * A)) r, assoc_z k l = Some r -> In r (map snd l).
 Proof. induction l as [|[a x] l IH]; simpl; intros r H; try discriminate. destruct (k =? a). - inversion H; auto. - right; auto. Qed.
+Lemma assoc_zz_in : forall A k (l : list ((Z * Z) * A)) r, assoc_zz k l = Some r -> In r (map snd l).
+Proof. induction l as [|[[a b] x] l IH]; simpl; intros r H; try discriminate.
+  destruct ((a =? fst k) && (b =? snd k)). - inversion H; auto. - right; auto. Qed.
 
-Definition site_listed (r : option string) : bool :=
-  match r with Some s => mem_s s register_convert_sites | None => true end.
-
-Lemma convert_tables_listed :
-  forallb site_listed (map snd convert_key_table) && forallb site_listed (map snd convert_cert_table)
-  && forallb site_listed (map snd convert_other_table) = true.
-Proof. vm_compute. reflexivity. Qed.
-
-Lemma convert_site_listed : forall sec site, convert sec = Some (Some site) -> mem_s site register_convert_sites = true.
+Lemma opt_sites_in : forall l site, In (Some site) l -> String.eqb site KMIP_ERROR = false -> mem_s site (opt_sites l) = true.
 Proof.
-  intros sec site H. pose proof convert_tables_listed as T.
-  apply andb_true_iff in T. destruct T as [T T3]. apply andb_true_iff in T. destruct T as [T1 T2].
-  rewrite forallb_forall in T1, T2, T3.
-  destruct sec; unfold convert in H.
-  - apply assoc_key_in in H. apply T1 in H. exact H.
-  - apply assoc_z_in in H. apply T2 in H. exact H.
-  - apply assoc_z_in in H. apply T3 in H. exact H.
+  intros l site H E. unfold mem_s. apply existsb_exists. exists site. split; [|apply String.eqb_refl].
+  unfold opt_sites. apply in_flat_map. exists (Some site). split; auto. rewrite E. left; reflexivity.
 Qed.
 
-Lemma mem_register : forall site, defect "register-convert" = true ->
-  mem_s site register_convert_sites = true -> mem_s site (op_sites "REGISTER") = true.
+Lemma convert_site_in : forall sec site, convert sec = Some (Some site) -> String.eqb site KMIP_ERROR = false ->
+  mem_s site convert_sites = true.
 Proof.
-  intros site Hd H.
+  intros sec site H E. unfold convert_sites, mem_s. rewrite !existsb_app.
+  destruct sec; unfold convert in H.
+  - destruct (missing =? 0).
+    + apply assoc_key_in in H. pose proof (opt_sites_in _ _ H E) as K. unfold mem_s in K. rewrite K. reflexivity.
+    + apply assoc_zz_in in H. pose proof (opt_sites_in _ _ H E) as K. unfold mem_s in K. rewrite K. rewrite orb_true_r. reflexivity.
+  - apply assoc_z_in in H. pose proof (opt_sites_in _ _ H E) as K. unfold mem_s in K. rewrite K. rewrite !orb_true_r. reflexivity.
+  - apply assoc_z_in in H. pose proof (opt_sites_in _ _ H E) as K. unfold mem_s in K. rewrite K. rewrite !orb_true_r. reflexivity.
+Qed.
+
+Lemma mem_register : forall site, mem_s site convert_sites = true -> mem_s site (op_sites "REGISTER") = true.
+Proof.
+  intros site H.
   replace (op_sites "REGISTER") with
-    ((if defect "register-convert" then register_convert_sites else [])
-     ++ active "set-attribute-missing-field" SET_ALG ++ active "set-attribute-missing-field" SET_LEN) by reflexivity.
-  rewrite Hd. unfold mem_s in *. rewrite existsb_app. rewrite H. reflexivity.
+    (convert_sites ++ active "set-attribute-missing-field" SET_ALG ++ active "set-attribute-missing-field" SET_LEN
+     ++ active "register-bigint-overflow" OVERFLOW_SITE) by reflexivity.
+  unfold mem_s in *. rewrite existsb_app. rewrite H. reflexivity.
 Qed.
 
 Lemma class_of_pair : forall otype cls, class_of otype = Some cls -> pair_ok otype cls.
@@ -361,17 +368,23 @@ Proof. auto. Qed.
 Lemma ok_h_register : forall v cr otype sec ta, wf_item (IRegister otype sec ta) ->
   sites_ok (allowed "REGISTER" cr) (h_register v otype sec ta).
 Proof.
-  intros v cr otype sec ta Hwf. unfold h_register. destruct (class_of otype); simpl; auto.
-  destruct sec as [sec|]; simpl; auto. simpl in Hwf. destruct Hwf as [Hc Hcl].
-  pose proof (proc_template_ok v ta) as Hd. destruct (proc_template v ta) as [d|o]; [|subst; simpl; auto].
+  intros v cr otype sec ta Hwf. unfold h_register. destruct (class_of otype); [|exact I].
+  destruct sec as [sec|]; [|exact I]. cbn [wf_item] in Hwf. destruct Hwf as [Hc Hcl].
+  pose proof (proc_template_ok v ta) as Hd. destruct (proc_template v ta) as [d|o]; [|subst; exact I].
   destruct (convert sec) as [[site|]|] eqn:Ec; try contradiction.
-  - apply ok_unguarded. intro Hdf. left. apply mem_register; auto. eapply convert_site_listed; eauto.
-  - destruct (class_of (sec_otype sec)) as [cls|] eqn:Ecl; try contradiction.
+  - destruct (String.eqb site KMIP_ERROR) eqn:Ek; [exact I|]. cbn [sites_ok]. left. apply mem_register. eapply convert_site_in; eauto.
+  - destruct (sec_big sec && negb (defect "register-bigint-overflow")) eqn:Eb; [exact I|].
+    destruct (class_of (sec_otype sec)) as [cls|] eqn:Ecl; try contradiction.
     assert (Hs : forall t, t_cls t = cls -> t_otype t = sec_otype sec -> sites_ok (allowed "REGISTER" cr) (set_attributes t d)).
     { intros t H1 H2. eapply sites_ok_impl; [|apply set_attributes_sites; auto].
       - intros s0 [n [Hdf [_ [[_ Hs0]|[_ Hs0]]]]]; subst s0; site_ok.
       - unfold pair_ok. rewrite H1, H2. auto. }
-    destruct sec; apply Hs; reflexivity.
+    assert (Hov : sec_big sec = true -> allowed "REGISTER" cr OVERFLOW_SITE).
+    { intro Hb. rewrite Hb in Eb. rewrite andb_true_l in Eb. apply negb_false_iff in Eb. site_ok. }
+    destruct sec; cbv zeta beta iota;
+      match goal with |- sites_ok _ (match set_attributes ?t d with _ => _ end) =>
+        pose proof (Hs t eq_refl eq_refl) as K; destruct (set_attributes t d); simpl; auto end;
+      match goal with |- sites_ok _ (if ?b then _ else _) => destruct b eqn:Eb2; simpl; auto end.
 Qed.
 
 (* ---- the handlers that only read attributes every stored class has *)
@@ -846,11 +859,14 @@ Qed.
 (* ------------------------------------------------------------------ the tree as it is now (after the fix: commits)
    These two statements are about the CURRENT values of the generated tables (they are proved by computing `op_sites`):
    re-introducing one of the repaired defects breaks them (as well as the grid). *)
-Lemma op_sites_empty_now : forall it, op_of it <> "GET_ATTRIBUTES" -> op_sites (op_of it) = [].
-Proof. destruct it; intro H; try (vm_compute; reflexivity); exfalso; apply H; reflexivity. Qed.
+(* the operations that still have an internal-error site on the tree as it is now *)
+Definition dirty_now : list string := ["GET_ATTRIBUTES"].
 
-Theorem no_crash_but_get_attributes : forall v s cr it,
-  supported_version v = true -> wf_store s -> wf_item it -> crypto_total cr -> op_of it <> "GET_ATTRIBUTES" ->
+Lemma op_sites_empty_now : forall it, ~ In (op_of it) dirty_now -> op_sites (op_of it) = [].
+Proof. destruct it; intro H; try (vm_compute; reflexivity); exfalso; apply H; simpl; tauto. Qed.
+
+Theorem no_crash_current_tree : forall v s cr it,
+  supported_version v = true -> wf_store s -> wf_item it -> crypto_total cr -> ~ In (op_of it) dirty_now ->
   step_crash v s cr it = false.
 Proof.
   intros v s cr it Hv Hs Hw Hc Hop. unfold step_crash.
